@@ -3,17 +3,23 @@
 (* variant that differs from the base in exactly that attribute, variants with a component left out *)
 (* or given as the explicit default, and key-adjacent fonts ("Arial1"/1 next to "Arial"/11).        *)
 (* Carriers: three cells, one row, two adjacent columns.  A behaviour is up to MaxAssign assignments *)
-(* followed by save, reload, save, reload.                                                           *)
+(* followed by save, reload, save, reload.  With NBooks = 2 (PalKind = "import": a small palette of  *)
+(* styles with custom number formats, cells only) up to MaxImport times the Style of a cell of one  *)
+(* workbook is set on a cell, row or column of the other, in any interleaving with the saves and     *)
+(* reloads of both: a template that was saved and loaded hands out styles that carry the ids of ITS *)
+(* tables, the receiving workbook has other content under the same ids (and vice versa).            *)
 EXTENDS Styles, Json
 
-CONSTANTS MaxAssign,    \* number of assignments before the first save
-          MaxSaves,     \* number of save/reload rounds
+CONSTANTS MaxAssign,    \* number of assignments (all workbooks together)
+          MaxImport,    \* number of style imports from one workbook into another
+          MaxSaves,     \* number of save/reload rounds of every workbook
+          PalKind,      \* "full": the palette below; "import": the small palette with custom number formats, cells only
           Pairs,        \* TRUE: the styles of a workbook differ pairwise in at most one attribute (or are key-adjacent)
           Wide,         \* TRUE: random styles from the whole attribute product on a larger sheet (simulation)
           EmitReplay    \* TRUE: print one REPLAY line per complete behaviour
 
-VARIABLES nassign, nsave, phase, hist
-mcvars == <<book, given, ss, file, sizes, nassign, nsave, phase, hist>>
+VARIABLES nassign, nimport, nsave, phase, hist       \* nsave, phase: per workbook
+mcvars == <<wbs, nassign, nimport, nsave, phase, hist>>
 
 Col(a, th, ti) == [argb |-> a, theme |-> th, tint |-> ti]
 Red == Col("FFFF0000", 0, "0")        \* one of the indexed colours
@@ -29,7 +35,7 @@ BBorder == [left |-> E("thin", Red), right |-> E("thin", NoColor), top |-> Edge0
             diagonal |-> Edge0, up |-> FALSE, down |-> FALSE]
 BAlign == [h |-> "left", v |-> "center", wrap |-> FALSE, rot |-> 0]
 BProt == [locked |-> TRUE, hidden |-> FALSE]
-Base == [font |-> <<BFont>>, fill |-> <<BFill>>, border |-> <<BBorder>>, align |-> <<BAlign>>, numFmt |-> <<"0.00">>,
+Base == [font |-> <<BFont>>, fill |-> <<BFill>>, border |-> <<BBorder>>, align |-> <<BAlign>>, numFmt |-> <<NumOf("0.00")>>,
          prot |-> <<BProt>>]
 F(f) == [Base EXCEPT !.font = <<f>>]
 Fi(f) == [Base EXCEPT !.fill = <<f>>]
@@ -52,7 +58,7 @@ AlignVariants ==
   {Al([BAlign EXCEPT !.h = "center"]), Al([BAlign EXCEPT !.v = "top"]), Al([BAlign EXCEPT !.wrap = TRUE]),
    Al([BAlign EXCEPT !.rot = 90])}
 OtherVariants ==
-  {[Base EXCEPT !.numFmt = <<"0.000">>], [Base EXCEPT !.numFmt = <<"m/d/yyyy">>], [Base EXCEPT !.numFmt = <<"General">>],
+  {[Base EXCEPT !.numFmt = <<NumOf("0.000")>>], [Base EXCEPT !.numFmt = <<NumOf("m/d/yyyy")>>], [Base EXCEPT !.numFmt = <<NumOf("General")>>],
    [Base EXCEPT !.prot = <<[BProt EXCEPT !.locked = FALSE]>>], [Base EXCEPT !.prot = <<[BProt EXCEPT !.hidden = TRUE]>>]}
 (* a component left out / given as the explicit default *)
 Partial ==
@@ -67,10 +73,17 @@ KeyAdjacent ==
 Palette == {Base} \cup FontVariants \cup FillVariants \cup BorderVariants \cup AlignVariants \cup OtherVariants
            \cup Partial \cup KeyAdjacent
 
+(* styles for the import scenario: two custom number formats (they get the same id in two workbooks), *)
+(* the same formats inside the base style, a built-in format, another font                               *)
+Metre == "0.0\" m\""
+Kilo  == "0.000\" kg\""
+ImportPalette == {[EmptyStyle EXCEPT !.numFmt = <<NumOf(Metre)>>], [EmptyStyle EXCEPT !.numFmt = <<NumOf(Kilo)>>],
+                  [Base EXCEPT !.numFmt = <<NumOf(Kilo)>>], Base, F([BFont EXCEPT !.name = "Verdana"])}
+
 (* two styles of the palette differ in at most one attribute, or are key-adjacent *)
 Near(s, t) == s = t \/ s = Base \/ t = Base \/ (s \in KeyAdjacent /\ t \in KeyAdjacent)
 StylesOf(B) == {x.sty : x \in B.cells} \cup {x.sty : x \in B.rows} \cup {x.sty : x \in B.cols}
-Allowed(s) == ~Pairs \/ \A t \in StylesOf(given) : Near(s, t)
+Allowed(w, s) == ~Pairs \/ \A t \in StylesOf(wbs[w].given) : Near(s, t)
 
 CellPos == {<<1, 1>>, <<1, 2>>, <<2, 2>>}
 RowPos  == {2}
@@ -101,47 +114,64 @@ RandAlign(z) == [h |-> R({"general", "left", "center", "right", "fill", "justify
 RandProt(z) == [locked |-> R(BOOLEAN), hidden |-> R(BOOLEAN)]
 Maybe(x) == IF R({1, 2, 3}) = 1 THEN <<>> ELSE <<x>>
 RandStyle(z) == [font |-> Maybe(RandFont(z)), fill |-> Maybe(RandFill(z)), border |-> Maybe(RandBorder(z)),
-                 align |-> Maybe(RandAlign(z)), numFmt |-> Maybe(R(Codes)), prot |-> Maybe(RandProt(z))]
+                 align |-> Maybe(RandAlign(z)), numFmt |-> Maybe(NumOf(R(Codes))), prot |-> Maybe(RandProt(z))]
 
-StylePool(z) == IF Wide THEN {RandStyle(z)} ELSE Palette
-CellPool(z)  == IF Wide THEN {<<R(1..6), R(1..6)>>} ELSE CellPos
-RowPool(z)   == IF Wide THEN {R(1..8)} ELSE RowPos
-ColPool(z)   == IF Wide THEN {R(1..8)} ELSE ColPos
+Small == PalKind = "import"
+StylePool(z) == IF Wide THEN {RandStyle(z)} ELSE IF Small THEN ImportPalette ELSE Palette
+CellPool(z)  == IF Wide THEN {<<R(1..6), R(1..6)>>} ELSE IF Small THEN {<<1, 1>>, <<1, 2>>} ELSE CellPos
+RowPool(z)   == IF Wide THEN {R(1..8)} ELSE IF Small THEN {} ELSE RowPos
+ColPool(z)   == IF Wide THEN {R(1..8)} ELSE IF Small THEN {} ELSE ColPos
 RowDimPool(z) == IF Wide THEN {<<R({"0", "15.75", "30", "409.5"}), R(BOOLEAN)>>} ELSE RowDims
 ColDimPool(z) == IF Wide THEN {<<R({"8.38", "12.5", "0.5", "255"}), R(BOOLEAN)>>} ELSE ColDims
 
-(* the script form of one assignment: what checks/c05.py hands to the driver *)
+(* import items: target carrier <- source cell *)
+Item(k, r, c, r2, c2) == [k |-> k, r |-> r, c |-> c, r2 |-> r2, c2 |-> c2]
+ItemPool(z) ==
+  IF Wide THEN {Item(R({"cell", "cell", "row", "col"}), R(1..6), R(1..6), R(1..6), R(1..6))}
+  ELSE {Item("cell", p[1], p[2], q[1], q[2]) : p \in {<<1, 1>>, <<1, 2>>}, q \in {<<1, 1>>, <<1, 2>>}}
+       \cup {Item("row", 1, 1, q[1], q[2]) : q \in {<<1, 1>>}} \cup {Item("col", 1, 2, q[1], q[2]) : q \in {<<1, 1>>}}
+
+(* the script form of one step: what checks/c05.py hands to the driver *)
 Log(rec) == hist' = Append(hist, rec)
-AssignRec(cs, rs, ks) == [a |-> "Assign", cells |-> cs, rows |-> rs, cols |-> ks]
+AssignRec(w, cs, rs, ks) == [a |-> "Assign", w |-> w, cells |-> cs, rows |-> rs, cols |-> ks]
+Books == 1..NBooks
 
-MCInit == Init /\ nassign = 0 /\ nsave = 0 /\ phase = "edit" /\ hist = <<[a |-> "Init"]>>
+MCInit == /\ Init /\ nassign = 0 /\ nimport = 0 /\ nsave = [w \in Books |-> 0] /\ phase = [w \in Books |-> "edit"]
+          /\ hist = <<[a |-> "Init", n |-> NBooks]>>
 
-Assign ==
-  /\ phase = "edit" /\ nassign < MaxAssign /\ (nsave = 0 \/ Wide) /\ nsave < MaxSaves
-  /\ nassign' = nassign + 1 /\ UNCHANGED <<nsave, phase>>
+Assign(w) ==
+  /\ phase[w] = "edit" /\ nassign < MaxAssign /\ (nsave[w] = 0 \/ Wide \/ Small) /\ nsave[w] < MaxSaves
+  /\ nassign' = nassign + 1 /\ UNCHANGED <<nimport, nsave, phase>>
   /\ \/ \E p \in CellPool(nassign), s \in StylePool(nassign) :
-          /\ Allowed(s) /\ SetCell(p[1], p[2], s)
-          /\ Log(AssignRec(<<[r |-> p[1], c |-> p[2], sty |-> s]>>, <<>>, <<>>))
+          /\ Allowed(w, s) /\ SetCell(w, p[1], p[2], s)
+          /\ Log(AssignRec(w, <<[r |-> p[1], c |-> p[2], sty |-> s]>>, <<>>, <<>>))
      \/ \E r \in RowPool(nassign), d \in RowDimPool(nassign), s \in StylePool(nassign) :
-          /\ Allowed(s) /\ SetRow(r, d[1], d[2], s)
-          /\ Log(AssignRec(<<>>, <<[r |-> r, ht |-> d[1], hid |-> d[2], sty |-> s]>>, <<>>))
+          /\ Allowed(w, s) /\ SetRow(w, r, d[1], d[2], s)
+          /\ Log(AssignRec(w, <<>>, <<[r |-> r, ht |-> d[1], hid |-> d[2], sty |-> s]>>, <<>>))
      \/ \E c \in ColPool(nassign), d \in ColDimPool(nassign), s \in StylePool(nassign) :
-          /\ Allowed(s) /\ SetCol(c, d[1], d[2], s)
-          /\ Log(AssignRec(<<>>, <<>>, <<[c |-> c, w |-> d[1], hid |-> d[2], sty |-> s]>>))
-DoSave ==
-  /\ phase = "edit" /\ nassign >= 1 /\ nsave < MaxSaves
-  /\ Save /\ Log([a |-> "Save"])
-  /\ phase' = "saved" /\ nsave' = nsave + 1 /\ UNCHANGED nassign
-DoReload ==
-  /\ phase = "saved"
-  /\ Reload /\ Log([a |-> "Reload"])
-  /\ phase' = "edit" /\ UNCHANGED <<nassign, nsave>>
+          /\ Allowed(w, s) /\ SetCol(w, c, d[1], d[2], s)
+          /\ Log(AssignRec(w, <<>>, <<>>, <<[c |-> c, w |-> d[1], hid |-> d[2], sty |-> s]>>))
+(* get_style(..).clone() of a cell of workbook v, set_style on a carrier of workbook w *)
+DoImport(w, v) ==
+  /\ w # v /\ phase[w] = "edit" /\ phase[v] = "edit" /\ nimport < MaxImport /\ nsave[w] < MaxSaves
+  /\ nimport' = nimport + 1 /\ UNCHANGED <<nassign, nsave, phase>>
+  /\ \E it \in ItemPool(nimport) :
+        /\ Import(w, v, it)
+        /\ Log([a |-> "Import", w |-> w, v |-> v, items |-> <<it>>])
+DoSave(w) ==
+  /\ phase[w] = "edit" /\ (NBooks = 1 => nassign >= 1) /\ nsave[w] < MaxSaves
+  /\ Save(w) /\ Log([a |-> "Save", w |-> w])
+  /\ phase' = [phase EXCEPT ![w] = "saved"] /\ nsave' = [nsave EXCEPT ![w] = @ + 1] /\ UNCHANGED <<nassign, nimport>>
+DoReload(w) ==
+  /\ phase[w] = "saved"
+  /\ Reload(w) /\ Log([a |-> "Reload", w |-> w])
+  /\ phase' = [phase EXCEPT ![w] = "edit"] /\ UNCHANGED <<nassign, nimport, nsave>>
 
-MCNext == Assign \/ DoSave \/ DoReload
+MCNext == \E w \in Books : Assign(w) \/ DoSave(w) \/ DoReload(w) \/ \E v \in Books : DoImport(w, v)
 MCSpec == MCInit /\ [][MCNext]_mcvars
-View == <<book, given, ss, file, sizes, nassign, nsave, phase>>
+View == <<wbs, nassign, nimport, nsave, phase>>
 
-(* after a reload every carrier shows what it was given *)
-Done == nsave = MaxSaves /\ phase = "edit"
+(* every workbook went through its save/reload rounds: nothing is enabled any more *)
+Done == \A w \in Books : nsave[w] = MaxSaves /\ phase[w] = "edit"
 Emit == (EmitReplay /\ Done) => PrintT(<<"REPLAY", ToJson(hist)>>)
 =============================================================================
